@@ -145,7 +145,9 @@ func genExt4History(r *core.Rng, tier string, idx int, wide bool) *core.Trace {
 		}
 	}
 	for i := 0; i < nops; i++ {
-		switch r.PickW(10, 12, 24, 8, 8, 9, 6, 6, 6, 5, 3, 3, 2, 1, 4) {
+		switch r.PickW(10, 12, 24, 8, 8, 9, 6, 6, 6, 5, 3, 3, 2, 1, 4, 1) {
+		case 15:
+			t.Ops = append(t.Ops, core.Op{K: "squeeze", A: r.Range(0, 1000)})
 		case 14:
 			// truncating open followed by a write of the new content (as CopyFileSystem does over an existing file)
 			t.Ops = append(t.Ops, core.Op{K: "trunc", P: pickFile(), B: sizes(), C: int64(r.U64() >> 2)})
@@ -165,7 +167,7 @@ func genExt4History(r *core.Rng, tier string, idx int, wide bool) *core.Trace {
 		case 3:
 			t.Ops = append(t.Ops, core.Op{K: "append", P: pickFile(), B: sizes(), C: int64(r.U64() >> 2)})
 		case 4:
-			tl := core.PickOf[int64](r, 1, 7, 58, 59, 60, 61, 200, 1000)
+			tl := core.PickOf[int64](r, 1, 7, 58, 59, 60, 60, 61, 200, 1000)
 			t.Ops = append(t.Ops, core.Op{K: "symlink", P: pickFile() + ".lnk", B: tl, A: int64(r.Intn(2))})
 		case 5:
 			if r.Chance(20) {
@@ -699,6 +701,47 @@ func (x *ext4Run) step(o core.Op) *core.Violation {
 				}
 			}
 		}
+	case "squeeze":
+		// a volume with exactly one free block and a directory whose last block is full: whatever is created in that
+		// directory takes the block for itself and is then refused for want of room for its entry - the block and
+		// the inode have to go back
+		if x.size > 48<<20 {
+			return nil
+		}
+		if m.get("SQ1.BLK") == nil {
+			if ok, v := x.createFile("SQ1.BLK"); v != nil || !ok {
+				return v
+			}
+			if v := x.writeFile("SQ1.BLK", 0, []byte("one block\n"), false); v != nil || x.lastErr {
+				return v
+			}
+		}
+		if v := x.step(core.Op{K: "fillup", A: o.A}); v != nil {
+			return v
+		}
+		if n := m.get("fill"); n == nil || !n.dir || n.tainted {
+			return nil
+		}
+		for i := 0; i < 300; i++ {
+			x.seq++
+			ok, v := x.createFile(fmt.Sprintf("fill/e%04d", x.seq))
+			if v != nil {
+				return v
+			}
+			if !ok {
+				x.res.Probe("directory-cannot-grow")
+				break
+			}
+		}
+		if v := x.step(core.Op{K: "remove", P: "SQ1.BLK"}); v != nil {
+			return v
+		}
+		for _, sub := range []core.Op{{K: "mkdir", P: "fill/sqdir"}, {K: "symlink", P: "fill/sqlnk", B: 200}, {K: "write", P: "fill/sqnew", A: 0, B: 10, C: o.A}} {
+			if v := x.step(sub); v != nil {
+				return v
+			}
+		}
+		x.trig = "squeeze"
 	case "symlink":
 		if !parentOK(o.P) || m.get(o.P) != nil {
 			return nil
